@@ -1,5 +1,6 @@
 (* C04 — packets are read from a byte stream exactly at APDU boundaries.  Statements only. *)
 From Zvt Require Import Base Length LengthProps Cp437 Encoding Codec Transport TransportProps.
+From Zvt Require Import Client ClientLog.
 Open Scope N_scope.
 
 (* the length header the writer emits and the reader's interpretation of it agree for every body
@@ -40,6 +41,17 @@ Example C04_ex : read_frame_chunks [Data [6; 30]; Pend; Data [1]; Pend; Pend; Da
   /\ frame_of 6 209 (repeat 65 255) = [6; 209; 255; 255; 0] ++ repeat 65 255.
 Proof. split; vm_compute; reflexivity. Qed.
 
+(* the Feig client's timed reader (Client.v, virtual time) on a connection whose data has all arrived is exactly this stream
+   reader on the buffered bytes: the theorems above are theorems about what the client reads *)
+Theorem C04_client_reader_is_stream_reader : forall c t, settled c ->
+  read_packet_t c t =
+  match read_frame (k_buf c) with
+  | Some (f, r) => RpFrame f t {| k_queue := []; k_close := true; k_buf := r |}
+  | None => RpEof t
+  end.
+Proof. exact read_packet_t_settled. Qed.
+
+Print Assumptions C04_client_reader_is_stream_reader.
 Print Assumptions C04_header_agreement.
 Print Assumptions C04_read_frames_concat.
 Print Assumptions C04_read_truncated.
